@@ -215,8 +215,8 @@ func (c *Ctx) loadKnown() {
 // harness error, not a violation), matched against the known findings, and otherwise written to a replay
 // file and announced. kase must be JSON-serialisable and sufficient for rejudge-by-replay.
 func (c *Ctx) Violation(kase any, first *Failure, rejudge func() *Failure, testText string) {
-	if first == nil {
-		return
+	if first == nil || c.stop.Load() {
+		return // (enough violations have been recorded: the run is winding down)
 	}
 	data, err := json.Marshal(kase)
 	if err != nil {
@@ -226,22 +226,26 @@ func (c *Ctx) Violation(kase any, first *Failure, rejudge func() *Failure, testT
 		// the re-runs happen while no other worker is inside a judge: if the code under test keeps process-wide
 		// mutable state, concurrent judges would otherwise make the witness look flaky
 		c.Quiesce.Lock()
-		// ... on one processor and without garbage collection: per-processor caches (sync.Pool) of the code under
-		// test then behave the same way in every re-run
-		procs := runtime.GOMAXPROCS(1)
-		gc := debug.SetGCPercent(-1)
-		restore := func() {
-			debug.SetGCPercent(gc)
-			runtime.GOMAXPROCS(procs)
-			c.Quiesce.Unlock()
+		rerun := func() int { // number of the first re-run that does not reproduce the failure, 0 if all five do
+			for i := 1; i <= 5; i++ {
+				if rejudge() == nil {
+					return i
+				}
+			}
+			return 0
 		}
-		for i := 0; i < 5; i++ {
-			if f := rejudge(); f == nil {
-				restore()
-				HarnessError("witness did not reproduce on re-run %d (nondeterministic harness): %s :: %s", i+1, string(data), first.Detail)
+		if bad := rerun(); bad != 0 {
+			// once more on one processor: per-processor caches (sync.Pool) of the code under test then behave the same
+			// way in every re-run. (Not by default: the other workers' enumeration would crawl on the one processor.)
+			procs := runtime.GOMAXPROCS(1)
+			bad2 := rerun()
+			runtime.GOMAXPROCS(procs)
+			if bad2 != 0 {
+				c.Quiesce.Unlock()
+				HarnessError("witness did not reproduce on re-run %d (nor on re-run %d on a single processor; nondeterministic harness): %s :: %s", bad, bad2, string(data), first.Detail)
 			}
 		}
-		restore()
+		c.Quiesce.Unlock()
 	}
 	c.mu.Lock()
 	defer c.mu.Unlock()
